@@ -95,6 +95,11 @@ func (f *ruleFactory) CreateRule(version, srcID string, ruleConfig config2.Rule)
 			func() bool { return f.defaultBacktracking })
 	}
 
+	if f.defaultRule == nil && ruleConfig.Matcher.BacktrackingEnabled != nil {
+		// the backtracking setting of the rule is effective if there is no default rule as well
+		allowsBacktracking = *ruleConfig.Matcher.BacktrackingEnabled
+	}
+
 	if len(authenticators) == 0 {
 		return nil, errorchain.NewWithMessage(heimdall.ErrConfiguration, "no authenticator defined")
 	}
